@@ -53,7 +53,7 @@ PROPS["C06"] = {
             "arbitrary bytes, checkpoint key and near misses) x db numbers (0..16, negative, > 2^31) x command names (every letter case, near misses); "
             "rawslot/rawcmd: unparsable slot entries and non-ASCII names against the as-coded model; "
             "path: RDB images (several databases, duplicate keys across databases, Lua aux fields in the middle and at the end) through the real "
-            "syncRDBFile and restoreRDBFile against a loopback fake target with 2 workers, the same keyspace through the real rump fetcher (a quarter of the keys vanish between SCAN and DUMP; their own names are left out of the comparison) "
+            "syncRDBFile and restoreRDBFile against a loopback fake target with 2 workers, the same keyspace through the real rump fetcher (a quarter of the keys vanish between SCAN and DUMP; their own names are left out of the comparison; 3 in 5 complete executors run against a special-cloud source: tencent = single db 0 without keyspace query, aliyun = ISCAN) "
             "(and complete executors), a command stream (select / single-key commands in mixed case / script, bookkeeping and keyless commands) through "
             "the real parseSourceCommand and through restore mode's restoreCommand. non-trivial = at least one filter setting configured; distinct by case text",
     "nontrivial": _nontrivial,
